@@ -59,6 +59,17 @@ def dag_programs():
         ("shared_extend_then_merged_on_the_right", f"(lambda a: a.rename_columns({{'x2': 'x', 'y2': 'y', 'z2': 'z'}}).natural_join(b=a.extend({{'x': 'x.max()'}}, partition_by=['g']), "
                                                    f"on=['g'], jointype='left'))({D}.extend({{'z': 'y + 1'}}))"),
         ("shared_extend_concat_merged", f"(lambda a: a.extend({{'x': 'x + 100'}}).concat_rows(b=a, id_column=None))({D}.extend({{'z': 'y + 1'}}))"),
+        # one sub-pipeline used twice with the SAME column set asked for in two different ORDERS, the second use feeding a positional consumer (UNION ALL)
+        ("shared_rename_two_column_orders", f"(lambda o: o.select_columns(['v', 'x', 'g']).concat_rows(b={D2}.rename_columns({{'v': 'y'}}).select_columns(['v', 'x', 'g']), id_column=None)"
+                                            f".natural_join(b=o.concat_rows(b={D2}.rename_columns({{'v': 'y'}}), id_column=None).project({{'mx': 'x.max()', 'mv': 'v.max()'}}, group_by=['g']), "
+                                            f"on=['g'], jointype='left'))({D}.rename_columns({{'v': 'y'}}))"),
+        ("shared_rename_two_orders_plain_tables", "(lambda o: o.select_columns(['v', 'x', 'g']).concat_rows(b=TableDescription(table_name='t1', column_names=['v', 'x', 'g']), id_column=None)"
+                                                  ".natural_join(b=o.concat_rows(b=TableDescription(table_name='t2', column_names=['g', 'x', 'v']), id_column=None)"
+                                                  ".project({'mx': 'x.max()', 'mv': 'v.max()'}, group_by=['g']), on=['g'], jointype='left'))"
+                                                  f"({D}.rename_columns({{'v': 'y'}}))"),
+        ("shared_order_two_column_orders", f"(lambda o: o.select_columns(['y', 'x', 'g']).concat_rows(b={D2}.select_columns(['y', 'x', 'g']), id_column=None)"
+                                           f".natural_join(b=o.concat_rows(b={D2}, id_column=None).project({{'mx': 'x.max()', 'my': 'y.max()'}}, group_by=['g']), on=['g'], jointype='left'))"
+                                           f"({D}.order_rows(['x'], limit=1))"),
         ("merge_chain", f"{D}.extend({{'w': 'x + 1'}}).extend({{'v': 'y * 2'}}).extend({{'u': 'w + v'}})"),
         ("merge_overwrite", f"{D}.extend({{'x': 'x + 1'}}).extend({{'v': 'y * 2'}}).extend({{'y': 'x + v'}})"),
         ("merge_rekey_window", f"{D}.extend({{'y': '-y'}}).extend({{'c': 'x.cumsum()'}}, partition_by=['g'], order_by=['y'])"),
